@@ -23,4 +23,5 @@ func TestC05(t *testing.T) {
 	// sends inside frames that fail afterwards (the block's outbound set must not keep them)
 	evmx.RunWorkload(m, "revert", m.N(2500, 100000), evmx.GenOpts{Focus: "revert"}, evmx.OracleC05)
 	m.Floor(1500, 20)
+	m.Need("TOP-EXT:refused-with-value:dest-ineligible", "outbound-set:top-level-ext")
 }
